@@ -133,8 +133,9 @@ def run_pair(case):
                          ("mul-commuted", q * p, rr.pmul(rp, rq))):
     v = check_poly(got, exp, "ring:" + name, "operator result differs from exact polynomial arithmetic", n)
     if v: return v
-  if not ((p + q) == (q + p)) or not ((p * q) == (q * p)):
-    return bad("ring:commutative:eq", "commuted results do not compare equal", None, None, n)
+  if not ((p + q) == (q + p)) or not ((p * q) == (q * p)) or (p + q) != (q + p) or (p * q) != (q * p) \
+     or hash(p + q) != hash(q + p) or hash(p * q) != hash(q * p):
+    return bad("ring:commutative:eq", "commuted results must be ==, not != and hash equally", None, None, n)
   # equality / hash
   e, ne = (p == q), (p != q)
   same = rp == rq
